@@ -150,8 +150,9 @@ func extractSinglePart(re *syntax.Regexp) *charClassPart {
 	runes := charClass.Rune
 	for i := 0; i < len(runes); i += 2 {
 		lo, hi := runes[i], runes[i+1]
-		// Only support ASCII for now
-		if lo > 255 || hi > 255 {
+		// Only support ASCII: runes 0x80-0xFF are 2 bytes in UTF-8 (é = 0xC3 0xA9),
+		// a byte membership table cannot represent them
+		if lo > 127 || hi > 127 {
 			return nil
 		}
 		for r := lo; r <= hi; r++ {
